@@ -367,6 +367,7 @@ impl C16 {
             1 => max_payload,
             2 => max_payload.saturating_sub(1),
             3 => 8,
+            9 => u32::MAX as usize,
             _ => 512 * 1024,
         };
         let knob_at = if self.max_len_mode == 0 { 0 } else { self.knob_at as usize };
@@ -815,7 +816,7 @@ fn generate_single(r: &mut Rng, tier: Tier) -> C16 {
     let caller: Vec<Decide> = (0..npend).map(|_| if en_cancel && r.chance(cancel_rate, 16) { Decide::Cancel } else { Decide::Poll }).collect();
     C16 {
         items,
-        max_len_mode: if r.chance(1, 3) { 1 + r.below(3) as u8 } else { 0 },
+        max_len_mode: if r.chance(1, 3) { 1 + r.below(3) as u8 } else if r.chance(1, 12) { 9 } else { 0 },
         init_buf: if let Some(n) = shape.roomy_init { n } else if r.chance(1, 3) { r.range(1, 300) as u32 } else { 0 },
         use_ctx: r.chance(1, 8),
         knob_at: if r.chance(1, 4) { r.below(nitems as u64) as u32 } else { 0 },
